@@ -142,7 +142,7 @@ func excess(a, b usage) int {
 func runN(c *svc.Child, cc connCase, n int) (notClosed int, nontrivial bool, err error) {
 	// sequential connections: one request per connection keeps them strictly one after another
 	for i := 0; i < n; i++ {
-		resp, e := c.Do(svc.Request{Op: "run", Scripts: []svc.WireScript{cc.wire()}, WaitMs: 12000}, 120*time.Second)
+		resp, e := c.Do(svc.Request{Op: "run", Scripts: []svc.WireScript{cc.wire()}, WaitMs: 20000}, 120*time.Second)
 		if e != nil {
 			return 0, nontrivial, e
 		}
@@ -227,8 +227,13 @@ func releaseOnce(cc connCase) (bool, error) {
 		return false, fmt.Errorf("infra: %v", e)
 	}
 	// warm-up (lazy initialisation happens once, it is not a per-connection cost)
+	t0 := time.Now()
 	if _, _, e := runN(c, cc, 2); e != nil {
 		return fail(e)
+	}
+	batch := batch
+	if time.Since(t0) > 6*time.Second {
+		batch = 2 // connections that take seconds to wind down (bounded waits inside the service): fewer of them
 	}
 	a, e := settle(c, usage{}, false)
 	if e != nil {
@@ -240,7 +245,7 @@ func releaseOnce(cc connCase) (bool, error) {
 	}
 	if notClosed > 0 {
 		dropChild()
-		return nt, fmt.Errorf("%d of %d connections were not closed by the server within 12 s after the client %s", notClosed, batch, endWord(cc.End))
+		return nt, fmt.Errorf("%d of %d connections were not closed by the server within 20 s after the client %s", notClosed, batch, endWord(cc.End))
 	}
 	b, e := settle(c, a, true)
 	if e != nil {
@@ -289,17 +294,23 @@ func releaseOnce(cc connCase) (bool, error) {
 func settle(c *svc.Child, ref usage, compare bool) (usage, error) {
 	var u usage
 	var err error
-	for i := 0; i < 6; i++ {
+	// some resources are released by a bounded wait inside the service (e.g. the 10 s accept
+	// deadline of an FTP passive socket nobody connected to): "released" is judged after 14 s
+	start := time.Now()
+	for i := 0; ; i++ {
 		u, err = measure(c)
 		if err != nil {
 			return u, err
 		}
-		if !compare || excess(ref, u) == 0 {
+		if !compare || excess(ref, u) == 0 || time.Since(start) > 14*time.Second {
 			return u, nil
 		}
-		time.Sleep(time.Duration(150*(i+1)) * time.Millisecond)
+		d := time.Duration(150*(i+1)) * time.Millisecond
+		if d > 2*time.Second {
+			d = 2 * time.Second
+		}
+		time.Sleep(d)
 	}
-	return u, nil
 }
 
 func endWord(e string) string {
@@ -330,7 +341,11 @@ func genConn(t *rapid.T) connCase {
 	switch c.Kind {
 	case "ftp-passive":
 		c.Service = "ftp"
-		c.Units = hexUnits([][]byte{[]byte("USER anonymous\r\n"), []byte("PASS anonymous\r\n"), []byte(rapid.SampledFrom([]string{"PASV", "EPSV", "PASV\r\nPASV"}).Draw(t, "pasv") + "\r\n"), []byte("NOOP\r\n")})
+		// passive mode requested, data port never connected to; then a command that needs the
+		// data connection, or one that fails inside the command handler
+		c.Units = hexUnits([][]byte{[]byte("USER anonymous\r\n"), []byte("PASS anonymous\r\n"),
+			[]byte(rapid.SampledFrom([]string{"PASV", "EPSV", "PASV\r\nPASV", "NOOP"}).Draw(t, "pasv") + "\r\n"),
+			[]byte(rapid.SampledFrom([]string{"NOOP", "NOOP", "LIST", "NLST", "RETR f", "STOR x", "APPE x", "EPRT |1|h", "PORT 1,2", "EPRT |1|127.0.0.1|1|"}).Draw(t, "then") + "\r\n")})
 	case "raw":
 		p := svc.PortOf(service)
 		c.UDP = p.UDP && (!p.TCP || rapid.Bool().Draw(t, "udp"))
@@ -363,7 +378,7 @@ func TestRelease(t *testing.T) {
 		}
 		return
 	}
-	r.Rule("24 services x {grammar, mutated, raw, ftp passive-mode never connected to} traffic followed by client close / reset (TCP) or as datagrams (UDP), in a lab child: 2 warm-up connections, then 6 sequential connections, then (if anything is held) 6 more; oracle = every connection closed by the server within 12 s of the client's end; goroutines in honeytrap frames, /proc/self/fd count and listening sockets after N connections equal those before (difference must not grow between the two history lengths); process CPU below 70% of an idle 1 s window; non-trivial = handler got past its first read; distinct by connection script")
+	r.Rule("24 services x {grammar, mutated, raw, ftp passive-mode never connected to} traffic followed by client close / reset (TCP) or as datagrams (UDP), in a lab child: 2 warm-up connections, then 6 sequential connections, then (if anything is held) 6 more; oracle = every connection closed by the server within 20 s of the client's end; goroutines in honeytrap frames, /proc/self/fd count and listening sockets after N connections equal those before (difference must not grow between the two history lengths); process CPU below 70% of an idle 1 s window; non-trivial = handler got past its first read; distinct by connection script")
 	r.Rapid(t, "TestRelease", r.Pick(14, 500), func(rt *rapid.T) {
 		c := genConn(rt)
 		nt, err := checkRelease(c)
